@@ -123,11 +123,15 @@ impl<const N: usize> NodeVersions<N> {
             .min();
 
         if let Some(min) = min {
-            let ts = HLCTimestamp::new(
-                min.datacake_timestamp().saturating_sub(FORGIVENESS_PERIOD),
-                min.counter(),
-                min.node(),
-            );
+            let time = min.datacake_timestamp();
+            let ts = if time < FORGIVENESS_PERIOD {
+                // Nothing is older than the forgiveness period yet, the cut off
+                // is the very first stamp of the node (not `0` with the counter
+                // of `min`, which would refuse the events before it in that tick).
+                HLCTimestamp::new(Duration::from_secs(0), 0, min.node())
+            } else {
+                HLCTimestamp::new(time - FORGIVENESS_PERIOD, min.counter(), min.node())
+            };
             self.safe_last_stamps.insert(node, ts);
         }
     }
